@@ -239,6 +239,8 @@ VERIF_HARNESS(c13_b1_two_threads) {
   __CPROVER_ASYNC_1: { g_tid = 1; thread_body(EVENT1); done1 = 1; }
   __CPROVER_ASYNC_2: { g_tid = 2; thread_body(EVENT2); done2 = 1; }
   VERIF_ASSERT(!overlap, "B1 never two threads inside the library at once");
+  VERIF_ASSERT(!g_selfdeadlock, "B1 no thread ever blocks on the mutex it already owns (a callback re-entering the API is recognised as the lock owner in every interleaving)");
+  VERIF_ASSERT(!g_bad_unlock, "B1 no thread unlocks a mutex it does not own");
   if (done1 && done2) {
     VERIF_ASSERT(shared_counter == 2, "B1 no lost update on library state");
     VERIF_ASSERT(g_owner == 0, "B1 mutex free once both threads returned");
